@@ -31,6 +31,8 @@ type thr struct {
 	wake    chan struct{}
 	state   int
 	waitMu  *value
+	waitWr  bool // blocked in Lock (not RLock) of waitMu
+	held    int  // number of locks this thread holds
 	waitCh  bool
 	fn      value
 	args    []value
@@ -64,6 +66,9 @@ type schedT struct {
 	TickerPeriods []value
 	quiet        map[*value]bool
 	unlockYield  bool // mutex releases are pre-emption points too (verifrt.PreemptAtUnlock)
+	timersAtYield bool // armed timers may fire at every pre-emption point even outside FireTimers (default before: always)
+	spawnedFIFO  bool // see pickNext (verifrt.SpawnedFIFO)
+	onlyHolding  bool // lock operations are pre-emption points only while the thread holds a lock (verifrt.PreemptOnlyHolding)
 	LockOps      int
 }
 
@@ -147,6 +152,20 @@ func (s *schedT) pickNext() *thr {
 		}
 		return nil
 	}
+	if s.spawnedFIFO {
+		// harness threads first (every order among them); goroutines started by the code under test run
+		// afterwards in spawn order, without a fork
+		var hs []*thr
+		for _, t := range en {
+			if t.harness || t.state == stTimer {
+				hs = append(hs, t)
+			}
+		}
+		if len(hs) == 0 {
+			return en[0]
+		}
+		en = hs
+	}
 	k := 0
 	if len(en) > 1 {
 		k = EX.decideN(len(en), true)
@@ -191,7 +210,7 @@ func (s *schedT) yield() {
 	if s.Preempt <= 0 || !s.preemptOn {
 		return
 	}
-	en := s.enabled(true)
+	en := s.enabled(s.idleTimers || s.timersAtYield)
 	if len(en) == 0 {
 		return
 	}
@@ -228,7 +247,7 @@ func (s *schedT) mu(m *value) *muState {
 
 func (s *schedT) lock(m *value, read bool) {
 	s.LockOps++
-	if !s.quiet[m] {
+	if !s.quiet[m] && (!s.onlyHolding || s.cur.held > 0) {
 		s.yield()
 	}
 	st := s.mu(m)
@@ -242,11 +261,20 @@ func (s *schedT) lock(m *value, read bool) {
 				}
 			}
 		}
+		if read && free {
+			// sync.RWMutex: a blocked Lock call excludes new readers (also a reader that holds the
+			// lock already: recursive read locking deadlocks once a writer waits)
+			for _, t := range s.thr {
+				if t != s.cur && t.state == stBlocked && t.waitMu == m && t.waitWr {
+					free = false
+				}
+			}
+		}
 		if free {
 			break
 		}
 		cur := s.cur
-		cur.state, cur.waitMu = stBlocked, m
+		cur.state, cur.waitMu, cur.waitWr = stBlocked, m, !read
 		s.block()
 	}
 	if read {
@@ -254,6 +282,7 @@ func (s *schedT) lock(m *value, read bool) {
 	} else {
 		st.writer = s.cur
 	}
+	s.cur.held++
 }
 
 func (s *schedT) unlock(m *value, read bool) {
@@ -286,7 +315,10 @@ func (s *schedT) unlock(m *value, read bool) {
 			t.state, t.waitMu = stReady, nil
 		}
 	}
-	if s.unlockYield && !s.quiet[m] {
+	if s.cur.held > 0 {
+		s.cur.held--
+	}
+	if s.unlockYield && !s.quiet[m] && (!s.onlyHolding || s.cur.held > 0) {
 		s.yield()
 	}
 }
